@@ -305,6 +305,7 @@ typedef enum
   ORC_X86_andps,
   ORC_X86_orps,
   ORC_X86_blendvpd_sse,
+  ORC_X86_movslq_rm_r,
 } OrcX86OpcodeIdx;
 
 typedef enum {
